@@ -351,6 +351,9 @@ class StopModel:
             self.sure = False
             self.classes.add('command-error')
             return
+        if name in ('stop-point', 'stop-task'):
+            # a new stop request: "runs on" is no longer expected
+            self.run_on = None
         if name == 'stop-point':
             p = info['point']
             if p != self.eff():
